@@ -412,6 +412,15 @@ Section Hop.
   Inductive elem_path (e : nat) : nat -> Prop :=
   | ep_refl : elem_path e e
   | ep_step a b : elem_path e a -> (b < nE)%nat -> share_near_node e a b -> elem_path e b.
+  (* the docstring's wording for elemental mode: dist(e, e_i) <= r for every e_i
+     (distance between vertex sets), consecutive elements share *some* node *)
+  Definition elem_near (e b : nat) : Prop :=
+    exists n, In n (nodes_of b) /\ near_elem e n = true.
+  Inductive doc_elem_path (e : nat) : nat -> Prop :=
+  | dep_refl : doc_elem_path e e
+  | dep_step a b : doc_elem_path e a -> (b < nE)%nat ->
+                   (exists n, In n (nodes_of a) /\ In n (nodes_of b)) -> elem_near e b ->
+                   doc_elem_path e b.
 End Hop.
 
 (* ------------------------------------------ correspondence-side checkers *)
